@@ -1133,6 +1133,7 @@ function project(node, enc, out) {
     if (node.generics && Object.keys(node.generics).length) e.generics = node.generics
     if (node.slot !== undefined) e.slot = projValue(node.slot, enc)
     if (node.slotElement) e.inSlot = node.slotElement.slotName
+    if (node._$wxTmplDevArgs && node._$wxTmplDevArgs.A) e.dev = node._$wxTmplDevArgs.A.slice()
     out.push(e)
     return
   }
@@ -1141,6 +1142,7 @@ function project(node, enc, out) {
   if (node.name === 'slot') {
     const e = { t: 'slot', name: node.slotName, at: projAttrs(node.attrs, enc) }
     if (node.slot !== undefined) e.slot = projValue(node.slot, enc)
+    if (node._$wxTmplDevArgs && node._$wxTmplDevArgs.A) e.dev = node._$wxTmplDevArgs.A.slice()
     out.push(e)
     return
   }
